@@ -55,7 +55,7 @@ func (w *world) outboundClusters(p *model.Proxy) []string {
 
 // routeVirtualHosts returns, for every outbound HTTP route configuration RDS generates, the
 // virtual host names (host:port) - the route-level observation point.
-func (w *world) routeVirtualHosts(p *model.Proxy) []string {
+func (w *world) routeVirtualHosts(p *model.Proxy, withDomains bool) []string {
 	ls := configGen.BuildListeners(p, w.ps)
 	names := map[string]bool{}
 	for _, rn := range core.ExtractRoutesFromListeners(ls) {
@@ -75,6 +75,11 @@ func (w *world) routeVirtualHosts(p *model.Proxy) []string {
 		}
 		for _, vh := range rc.VirtualHosts {
 			out = append(out, rc.Name+">"+vh.Name)
+			if withDomains {
+				for _, d := range vh.Domains {
+					out = append(out, rc.Name+">"+vh.Name+">"+d)
+				}
+			}
 		}
 	}
 	sort.Strings(out)
@@ -84,6 +89,9 @@ func (w *world) routeVirtualHosts(p *model.Proxy) []string {
 func (w *world) queryXDS(t []string) string {
 	lbl, _ := decLabels(t[2])
 	p := w.proxyFor(wire.Dec(t[1]), lbl)
+	if t[0] == "routes" { // debugging aid, not generated
+		return wire.EncList(w.routeVirtualHosts(p, true))
+	}
 	return "C=" + wire.EncList(w.outboundClusters(p))
 }
 
@@ -95,7 +103,10 @@ func (w *world) queryXDS(t []string) string {
 func (w *world) oracleXDS(ns string, lbl map[string]string) string {
 	p := w.proxyFor(ns, lbl)
 	sc := p.SidecarScope
-	if v := w.oracleOneScope(sc, ns, false); v != "" {
+	if v := w.checkAppliedSidecar(sc, ns, lbl); v != "" {
+		return v
+	}
+	if v := w.oracleOneScope(sc, ns, false, w.expectedSidecar(ns, lbl)); v != "" {
 		return v
 	}
 	type hp struct {
@@ -106,6 +117,9 @@ func (w *world) oracleXDS(ns string, lbl map[string]string) string {
 	hosts := map[string]bool{}
 	for _, s := range sc.Services() {
 		hosts[string(s.Hostname)] = true
+		if sp := w.byID[svcID(s)]; sp != nil && sp.externalName != "" {
+			continue // an ExternalName service has no cluster of its own
+		}
 		for _, port := range s.Ports {
 			want[hp{string(s.Hostname), strconv.Itoa(port.Port)}] = true
 		}
@@ -137,7 +151,31 @@ func (w *world) oracleXDS(ns string, lbl map[string]string) string {
 			}
 		}
 	}
-	for _, r := range w.routeVirtualHosts(p) {
+	// route domains: a domain that is the hostname of mesh services must belong to one that is exported
+	// to ns (this is where alias hostnames of ExternalName services surface)
+	for _, r := range w.routeVirtualHosts(p, true) {
+		parts := strings.Split(r, ">")
+		if len(parts) != 3 {
+			continue
+		}
+		d := strings.TrimSuffix(parts[2], ".")
+		if i := strings.LastIndex(d, ":"); i >= 0 {
+			d = d[:i]
+		}
+		known, visible := false, false
+		for i := range w.svcs {
+			if w.svcs[i].hostname == d {
+				known = true
+				if w.documentedVisible(&w.svcs[i], ns) {
+					visible = true
+				}
+			}
+		}
+		if known && !visible && !vsHosts[d] {
+			return "route-domain-for-hidden-service " + wire.Enc(parts[2]) + " " + ns
+		}
+	}
+	for _, r := range w.routeVirtualHosts(p, false) {
 		_, vh, _ := strings.Cut(r, ">")
 		if vh == "allow_any" || vh == "block_all" {
 			continue
